@@ -305,6 +305,72 @@ def _e2e_one(args):
     return dict(violations=out, counts=counts, outcome=str(sorted(map(str, sig))))
 
 
+# ---- end-to-end in a line market (orders placed, replaced, matched and settled by the real run) ------------
+LINE_BOOK = {
+    1: {"atb": [[2.5, 5], [1.5, 5]], "atl": [[3.5, 5], [4.5, 5]], "trd": [[2.5, 10]]},
+    2: {"atb": [[2.5, 5]], "atl": [[3.5, 5]]},
+}
+LINE = (0.5, 9.5, 1)
+# (template, replace-to price or None): placed in update 0, replaced in update 1
+LINE_MENU = [
+    (dict(sel=1, side="BACK", price=2.5, size=4.0), None),  # matched at 2.5
+    (dict(sel=1, side="LAY", price=3.5, size=3.0), None),  # matched at 3.5
+    (dict(sel=1, side="BACK", price=3.5, size=4.0), 2.5),  # rests, replaced down to 2.5: the replacement matches
+    (dict(sel=1, side="LAY", price=2.5, size=2.0), 4.5),  # rests, replaced up: matches at 3.5
+    (dict(sel=1, side="BACK", price=1.5, size=2.0), None),  # price-improved to 2.5
+    (dict(sel=1, side="LAY", price=1.5, size=2.0), None),  # never matched
+]
+
+
+class _LineHooks:
+    def __init__(self, result):
+        self.result = result
+
+    def strategy_tick(self, w, st, market, mb, tick):
+        # the line result is not in the stream: the user supplies it through the market context (documented)
+        if self.result is not None:
+            market.context["line_range_result"] = self.result
+
+
+def _e2e_line(args):
+    idxs, result = args
+    spec = simx.MarketSpec(book0=LINE_BOOK, sels=((1, 0), (2, 0)), ladder="LINE_RANGE", line=LINE, market_type="TOTAL_LINE", betting_type="LINE")
+    ticks = [[500, ["Q"]], [500, ["Q"]], [500, ["Q"]], [500, ["CL", {1: "WINNER", 2: "LOSER"}]]]
+    acts0, acts1 = [], []
+    for k, i in enumerate(idxs):
+        t, rp = LINE_MENU[i]
+        acts0.append(["P", dict(t, ladder="LINE_RANGE", line=LINE)])
+        if rp is not None:
+            acts1.append(["R", k, rp])
+    script = {(0, 0): acts0}
+    if acts1:
+        script[(0, 1)] = acts1
+    w = simx.SimWorld([(spec, ticks)], [dict(script=script, kw=dict(max_order_exposure=None, max_selection_exposure=None, max_live_trade_count=100))], hooks=_LineHooks(result)).run()
+    out = []
+    counts = {"clause:C08.a": 0, "clause:C08.b": 0, "e2e_line_matched": 0, "e2e_line_replacements_matched": 0}
+    case = dict(line_args=[list(idxs), result])
+    if w.run_exception is not None:
+        out.append(core.v("C08.a", ("e2e-line", "exception", type(w.run_exception).__name__, "-", "-"), "run raised %r" % (w.run_exception,), case))
+        return dict(violations=out, counts=counts, outcome=None)
+    sig = []
+    for o in w.all_orders():
+        frags = [(p, s) for _, p, s in o.simulated.matched]
+        counts["clause:C08.a"] += 1
+        if not frags:
+            if o.profit != 0:
+                out.append(core.v("C08.a", ("e2e-line", "unmatched", o.side, "LL", "-"), "unmatched line order has profit %s" % o.profit, case))
+            continue
+        counts["e2e_line_matched"] += 1
+        repl = len(o.trade.orders) > 1 and o is not o.trade.orders[0]
+        if repl:
+            counts["e2e_line_replacements_matched"] += 1
+        exp, kc = refs.ref_settle(o.side, "LIMIT", True, frags, "WINNER", "TOTAL_LINE", None, None, result)
+        sig.append((o.side, frags[0][0], round(o.profit, 2), kc))
+        if exp is not None and abs(F(str(o.profit)) - exp) > _tol(frags, None):
+            out.append(core.v("C08.a", ("e2e-line", kc, o.side, "replacement" if repl else "placed", "-"), "line market, %s %s matched %s, result %s: profit %s expected %s (even money on the stake)" % ("replacement order" if repl else "order", o.side, frags, result, o.profit, float(exp)), case))
+    return dict(violations=out, counts=counts, outcome=str(sorted(map(str, sig))))
+
+
 def run(tier):
     rep = core.Report("C08", tier, "E3 gridx + E1 simx")
     frs = [(p, s) for p in PRICES for s in SIZES]
@@ -338,6 +404,13 @@ def run(tier):
         rep.merge_counts(r["counts"])
         if r["outcome"]:
             rep.outcomes.add(r["outcome"])
+    lj = [(c, res) for k in (1, 2, 3) for c in itertools.combinations(range(len(LINE_MENU)), k) for res in (None, 2.0, 3.0, 5.0)]
+    for r in core.pmap(_e2e_line, lj):
+        rep.add_violations(r["violations"])
+        rep.merge_counts(r["counts"])
+        if r["outcome"]:
+            rep.outcomes.add(r["outcome"])
+    rep.need("e2e_line_matched", "e2e_line_replacements_matched")
     rep.need("e2e_matched_orders", "e2e_sp_fills", "e2e_reduced_prices", "e2e_replacements_matched")
     rep.sample({"e2e_case": jobs[len(jobs) // 2]})
     rep.sample({"e2e_case": jobs[-1]})
@@ -363,6 +436,16 @@ def run(tier):
 
 
 def replay(rep):
+    if "line_args" in rep["case"]:
+        a = rep["case"]["line_args"]
+        r = _e2e_line((tuple(a[0]), a[1]))
+        for d in r["violations"]:
+            print(d["key"], d["detail"])
+        return 1 if r["violations"] else 0
+    return _replay(rep)
+
+
+def _replay(rep):
     case = rep["case"]
     if "args" in case:
         a = case["args"]
